@@ -3,4 +3,4 @@ import engine_common
 
 
 def run(chk, replay=None):
-    engine_common.run_engine(chk, "C10", ["conv.ndjson", "bp.ndjson", "pack.ndjson"])
+    engine_common.run_engine(chk, "C10", ["conv.ndjson", "bp.ndjson", "pack.ndjson", "mib.ndjson"])
